@@ -2,7 +2,12 @@
 
 package pullapi
 
-import "time"
+import (
+	"fmt"
+	"reflect"
+	"strings"
+	"time"
+)
 
 // White-box access for the /verif harness (mounted with -overlay, never committed).
 // The recent-ops cache reads Server.now, an unexported field without a setter: VerifSetNow
@@ -25,7 +30,26 @@ func (s *Server) VerifRecentOps() (entries []VerifRecentOp, mapLen int) {
 			entries = append(entries, VerifRecentOp{LeaseID: "<nil>"})
 			continue
 		}
-		entries = append(entries, VerifRecentOp{LeaseID: entry.key.leaseID, Op: entry.key.op, ExpiresAt: entry.expiresAt.UnixNano()})
+		entries = append(entries, VerifRecentOp{LeaseID: verifText(entry.key.leaseID), Op: verifText(entry.key.op), ExpiresAt: entry.expiresAt.UnixNano()})
 	}
 	return entries, len(s.recentLeaseOps)
+}
+
+// verifText reads a key component as text whatever its representation (a string today; a fixed-size byte array is read up to its
+// zero padding), so that the shim keeps compiling when the memo key is re-encoded.
+func verifText(v any) string {
+	rv := reflect.ValueOf(v)
+	switch rv.Kind() {
+	case reflect.String:
+		return rv.String()
+	case reflect.Array, reflect.Slice:
+		if rv.Type().Elem().Kind() == reflect.Uint8 {
+			b := make([]byte, rv.Len())
+			for i := range b {
+				b[i] = byte(rv.Index(i).Uint())
+			}
+			return strings.TrimRight(string(b), "\x00")
+		}
+	}
+	return fmt.Sprint(v)
 }
